@@ -5,5 +5,7 @@ CONSTANTS
   MaxOps = 3
   Renewals = {TRUE, FALSE}
   SessLens = {"short", "long"}
+  Forms = {"none", "token", "bearer", "phc", "basic", "jwt"}
+  Mgmt = {"token", "user", "session"}
 
 CHECK_DEADLOCK FALSE
